@@ -323,6 +323,87 @@ def h_resolution(ctx: Any, nclauses: int, nvars: int, maxlen: int, replay: bool 
         ctx.count('replayed')
 
 
+def _nest(kind: str, items: list, left: bool) -> Any:
+    from proof_generation import tautology as T
+
+    cls = T.CFAnd if kind == 'and' else T.CFOr
+    if len(items) == 1:
+        return items[0]
+    if left:
+        acc = items[0]
+        for x in items[1:]:
+            acc = cls(acc, x)
+        return acc
+    acc = items[-1]
+    for x in reversed(items[:-1]):
+        acc = cls(x, acc)
+    return acc
+
+
+def _lit(ctx: Any, nvars: int) -> Any:
+    from proof_generation import tautology as T
+
+    v = T.CFVar(ctx.choose(nvars, 'var'))
+    v.negated = bool(ctx.choose(2, 'neg'))
+    return v
+
+
+def h_clauses_family(ctx: Any, maxk: int, maxm: int, quick: bool = True, twin: bool = False) -> None:
+    """to_clauses on conjunctions of up to maxk clauses of up to maxm literals, nested to the left or to the right,
+    on a Tautology instance that has already converted another such formula (state kept between calls must not matter)"""
+    from proof_generation.tautology import Tautology, clause_conjunctionto_pattern
+
+    from proof_generation import tautology as T
+
+    def lit(i: int, j: int) -> Any:
+        # the shape (clause count, clause lengths, nesting) is what varies; literals are fixed by position
+        x = T.CFVar((i + j) % 3)
+        x.negated = (i * j) % 2 == 1
+        return x
+
+    def formula(tag: str) -> Any:
+        ks = [x for x in (1, 2, 4, 5) if x <= maxk] if maxk >= 4 else list(range(1, maxk + 1))
+        k = ks[ctx.choose(len(ks), 'k' + tag)]
+        cls = []
+        for i in range(k):
+            ms = [x for x in ((1, 4) if quick else (1, 2, 4)) if x <= maxm] if maxm >= 4 else list(range(1, maxm + 1))
+            m = ms[ctx.choose(len(ms), 'm' + tag)]
+            cls.append(_nest('or', [lit(i, j) for j in range(m)], bool(ctx.choose(2, 'orleft' + tag)) if m > 2 else True))
+        return _nest('and', cls, bool(ctx.choose(2, 'andleft' + tag)) if k > 2 else True)
+
+    t = Tautology()
+    if ctx.choose(2, 'history'):
+        # a fixed earlier conversion with a 3-clause left-nested conjunction and a 3-literal left-nested clause
+        from proof_generation import tautology as T
+
+        def v(i: int, neg: bool = False) -> Any:
+            x = T.CFVar(i)
+            x.negated = neg
+            return x
+
+        for earlier in (_nest('and', [v(0), v(1), v(0, True), v(2)], True), _nest('or', [v(0), v(1), v(1, True), v(2)], True)):
+            try:
+                t.to_clauses(earlier)
+            except Exception:
+                pass
+    cf = formula('a')
+    pin = cf_pattern(cf)
+    tin = O.expand(pin)
+    zin = zbool(tin)
+    ctx.count('reached')
+    ctx.sample({'stage': 'to_clauses', 'input': str(pin)})
+    if twin:
+        ctx.violation('TWIN')
+    try:
+        out, pf1, pf2 = t.to_clauses(cf)
+    except Exception as e:
+        ctx.violation(f'C09.to_clauses.raises[{type(e).__name__}]', f'{pin!s}: {str(e)[:200]}')
+    pout = clause_conjunctionto_pattern(out)
+    zout = zbool(O.expand(pout))
+    ctx.check(_equiv(zin, zout), 'C09.to_clauses.not-equivalent', lambda: f'{pin!s} -> {pout!s}')
+    _check_impl_pair(ctx, 'to_clauses', str(pin), pf1, pf2, tin, zout)
+
+
 def levels(tier: str) -> list[dict]:
     M = 'vf.props.c09'
     q = tier == 'quick'
@@ -341,6 +422,8 @@ def levels(tier: str) -> list[dict]:
         for lv in ([1, 2, 3, 4] if q else [1, 2, 3, 4, 5]):
             nv = 2 if lv >= 4 else 3
             L.append(dict(label=f'stage/{stage}/leaves={lv},vars={nv}', module=M, fn='h_stage', kwargs=dict(stage=stage, leaves=lv, nvars=nv), budget_s=bud, required=lv <= 3, twin=(lv == 2 and stage == 'to_cnf')))
+    for mk, mm in ([(4, 4)] if q else [(4, 4), (5, 3)]):
+        L.append(dict(label=f'stage/to_clauses/nested-families/clauses<={mk},literals<={mm}', module=M, fn='h_clauses_family', kwargs=dict(maxk=mk, maxm=mm, quick=q), budget_s=bud, required=True, twin=False))
     for nc, nv, ml in ([(1, 2, 2), (2, 2, 2), (3, 2, 2), (2, 3, 2)] if q else [(1, 3, 3), (2, 3, 3), (3, 2, 2), (3, 3, 2), (4, 2, 2)]):
         L.append(dict(label=f'resolution/clauses={nc},vars={nv},len<={ml}', module=M, fn='h_resolution', kwargs=dict(nclauses=nc, nvars=nv, maxlen=ml, replay=(nc <= 2 and nv <= 2)), budget_s=bud, required=nc <= 3 and nv <= 2, twin=(nc == 2 and nv == 2)))
     return L
